@@ -128,4 +128,4 @@ Inductive tlv_parse (hdr : Z -> Z -> Descriptor) (body : Z -> Z -> Z -> IM Descr
 
 (* the 12-bit loop length in front of a loop that starts at pos *)
 Definition loop_length_at (bs : list Z) (pos : Z) : Z :=
-  (byte_of bs pos mod 16) * 256 + byte_of bs (pos + 1).
+  (byte_of bs pos mod 16) * 256 + byte_of bs (pos + 1) mod 256.
